@@ -473,7 +473,7 @@ Qed.
 
 Lemma strip_last_while_len p m l : lenN (strip_last_while p m l) <= lenN l.
 Proof.
-  unfold strip_last_while. rewrite !lenN_length, rev_length.
+  unfold strip_last_while, rev'. rewrite <- !rev_alt. rewrite !lenN_length, rev_length.
   pose proof (pop_while_len p m (length l) (rev l) (lenN l)) as H.
   rewrite rev_length, lenN_length in H. lia.
 Qed.
